@@ -80,6 +80,7 @@ fn op_nums(op: &Op) -> Vec<i64> {
         Op::OIns { k } | Op::ODel { k } | Op::OGet { k } | Op::OHold { k } | Op::ONext { k } | Op::OPrev { k } => vec![*k as i64],
         Op::OFirst { p } | Op::OHRead { p } | Op::OHWrite { p } | Op::OHDel { p } => vec![*p as i64],
         Op::OBulk { n, pat } => vec![*n as i64, *pat as i64],
+        Op::KBulk { n, pat } => vec![*n as i64, *pat as i64],
         Op::SIns { a, b, exp } => vec![*a, *b, *exp as i64],
         Op::SQuery { a, b, take } => vec![*a, *b, *take as i64],
         _ => vec![],
@@ -101,7 +102,9 @@ fn with_num(op: &Op, idx: usize, v: i64) -> Op {
         (Op::OIns { k }, 0) | (Op::ODel { k }, 0) | (Op::OGet { k }, 0) | (Op::OHold { k }, 0) | (Op::ONext { k }, 0) | (Op::OPrev { k }, 0) => *k = i,
         (Op::OFirst { p }, 0) | (Op::OHRead { p }, 0) | (Op::OHWrite { p }, 0) | (Op::OHDel { p }, 0) => *p = i,
         (Op::OBulk { n, .. }, 0) => *n = i.max(1),
-        (Op::OBulk { pat, .. }, 1) => *pat = i.clamp(0, 2) as u8,
+        (Op::KBulk { n, .. }, 0) => *n = i.max(1),
+        (Op::KBulk { pat, .. }, 1) => *pat = i.clamp(0, 1) as u8,
+        (Op::OBulk { pat, .. }, 1) => *pat = i.clamp(0, 4) as u8,
         (Op::SIns { a, .. }, 0) | (Op::SQuery { a, .. }, 0) => *a = v,
         (Op::SIns { b, .. }, 1) | (Op::SQuery { b, .. }, 1) => *b = v,
         (Op::SIns { exp, .. }, 2) => *exp = i,
@@ -201,7 +204,7 @@ fn compress_keys(t: &Trace) -> Trace {
     }
     let mut keys: BTreeSet<i64> = BTreeSet::new();
     for s in &t.steps {
-        if matches!(s.op, Op::OBulk { .. }) {
+        if matches!(s.op, Op::OBulk { .. } | Op::KBulk { .. }) {
             // keys of a bulk build are implied by its size: leave such traces alone
             return t.clone();
         }
@@ -327,7 +330,7 @@ pub fn shrink(trace: &Trace, failure: &Failure, budget: Duration, max_cands: u64
             sh.try_adopt(&c);
         }
         let mut c = sh.best.clone();
-        let has_bulk = c.steps.iter().any(|s| matches!(s.op, Op::OBulk { .. }));
+        let has_bulk = c.steps.iter().any(|s| matches!(s.op, Op::OBulk { .. } | Op::KBulk { .. }));
         if c.cfg.key_lo != 0 && c.cfg.world != crate::core::WorldKind::Seg && !has_bulk {
             let d = c.cfg.key_lo;
             c.cfg.key_lo = 0;
@@ -340,7 +343,7 @@ pub fn shrink(trace: &Trace, failure: &Failure, budget: Duration, max_cands: u64
             sh.try_adopt(&c);
         }
         let mut c = sh.best.clone();
-        if c.cfg.universe > 16 && !c.steps.iter().any(|s| matches!(s.op, Op::OBulk { .. })) {
+        if c.cfg.universe > 16 && !c.steps.iter().any(|s| matches!(s.op, Op::OBulk { .. } | Op::KBulk { .. })) {
             c.cfg.universe = 16;
             sh.try_adopt(&c);
         }
